@@ -9,7 +9,7 @@
 //! from Map.tla for the same case (`exp`, `parts`); the calls are also recorded for MapTrace.tla
 //! (no panic/hang, indices in range).
 use crate::{geti, write_layout};
-use libtw2_map::format::{self, EnvpointExt, MapItemExt};
+use libtw2_map::format::{self, MapItemExt};
 use libtw2_map::reader::{self, LayerTilemapType, LayerType};
 use serde_json::{json, Value};
 use std::collections::{BTreeMap, BTreeSet};
